@@ -24,7 +24,12 @@ from .c03 import _set
 PID = "C11"
 ALL_FAULTS = ["none", "drop", "rename", "restage", "cycle", "dup", "key", "type", "var"]
 INVARIANTS = ["TypeOKV", "VerdictAgrees", "ReasonIsSound", "FaultEffects", "BaseValid"]
-ALLOWED = "ExperimentInvalidConfigurationError"        # the documented invalid-configuration error (and its subclasses)
+# The documented invalid-configuration error (and its subclasses) is what a load from a package must raise.  The in-memory
+# entry point graphFromFlowIR builds the FlowIRConcrete outside the error collection of the loader, so a FlowIR error
+# (errors.FlowIRException family: FlowIRInconsistency for a duplicate identifier, ...) may surface unwrapped there; that is
+# still a typed invalid-FlowIR error.  KeyError / ValueError / TypeError / AttributeError / RecursionError ... are leaks.
+ALLOWED = {"package": ("ExperimentInvalidConfigurationError",),
+           "graph": ("ExperimentInvalidConfigurationError", "FlowIRException")}
 
 K_BOOL = "validate:type:boolean-option-coerced-by-truthiness"
 
@@ -38,11 +43,11 @@ def V(names=("p", "q", "r"), stages=(0, 1), reps=("none", "n2", "vs"), aggs=(Tru
 SLICES = {
     "quick": {
         # every fault kind at every position, two components, all ways of asking for replicas
-        "two": V(names=("p", "q"), reps=("none", "n2", "vg", "vs", "vc"), comps=2, package=4),
-        # structural faults on three components (chains, diamonds, aggregators)
-        "three": V(reps=("none", "n2"), spell=("abs",), faults=["none", "drop", "rename", "restage", "cycle", "dup", "var"], package=16),
-        # option faults on three components, one stage
-        "options": V(stages=(0,), reps=("none", "vg"), spell=("rel",), refs=1, faults=["key", "type"], package=16),
+        "two": V(names=("p", "q"), reps=("none", "n2", "vs", "vc"), comps=2, package=4),
+        # structural faults on three components (chains, diamonds, aggregators), one stage
+        "three": V(stages=(0,), reps=("none", "n2"), spell=("rel",), faults=["none", "drop", "rename", "cycle", "dup", "var"], package=16),
+        # structural faults across two stages
+        "stages": V(reps=("none",), aggs=(False,), spell=("abs",), faults=["drop", "rename", "restage", "cycle", "dup"], package=16),
     },
     "thorough": {
         "two": V(names=("p", "q"), reps=("none", "n1", "n2", "n3", "vg", "vs", "vc"), comps=2, package=2,
@@ -54,8 +59,8 @@ SLICES = {
     },
 }
 MODEL = {
-    "quick": V(reps=("none", "vs", "vc"), spell=("abs",)),
-    "thorough": V(reps=("none", "n2", "vs", "vc"), spell=("abs",)),
+    "quick": V(names=("p", "q"), reps=("none", "n1", "n2", "n3", "vg", "vs", "vc"), comps=2, paths=("", "out.txt")),
+    "thorough": V(reps=("none", "vs", "vc"), spell=("abs",)),
 }
 
 
@@ -87,7 +92,7 @@ def judge(case, res, path):
         return ["%s: the load did not return within the alarm (hang)" % path]
     if "error" in res:
         bad = []
-        if ALLOWED not in res["mro"]:
+        if not any(a in res["mro"] for a in ALLOWED[path]):
             bad.append("%s: refused with %s (%s), not with an invalid-configuration error" % (path, res["error"], res["msg"][:200]))
         if valid:
             bad.append("%s: the workflow is valid (%s) but was refused: %s: %s" % (
@@ -151,7 +156,7 @@ def run(tier):
     threads.append(threading.Thread(target=tlc_job, args=("model", mcfg), kwargs=dict(workers=8, coverage=True, timeout=800)))
     slices = SLICES[tier]
     for name, sl in slices.items():
-        cfg = write_cfg(os.path.join(gen, "Validate_%s_%s.cfg" % (name, tier)), sl, True, ["EmitMutant"])
+        cfg = write_cfg(os.path.join(gen, "Validate_%s_%s.cfg" % (name, tier)), sl, True, INVARIANTS + ["EmitMutant"])
         threads.append(threading.Thread(target=tlc_job, args=("slice:" + name, cfg), kwargs=dict(workers=1, timeout=800)))
     for t in threads:
         t.start()
@@ -178,7 +183,7 @@ def run(tier):
     m = results["model"]
     if not m["ok"]:
         raise MachineryError("Validate.tla: invariant %s fails on the model:\n%s" % (m["violated"], m["out"][-2500:]))
-    for act in ("AddComponent", "AddRef", "Mutate"):
+    for act in ("AddComponentV", "AddRefV", "Mutate"):
         if not m["coverage"].get(act):
             raise MachineryError("action %s of Validate.tla never taken (vacuous run): %s" % (act, m["coverage"]))
     m["out"] = ""
@@ -200,7 +205,8 @@ def run(tier):
                         "wrongly typed values are values no lenient conversion can repair (\"two\" for an int, \"maybe\"/3 for a bool, a string "
                         "for a list, a list for a string); numeric strings such as \"2\" are not counted as wrongly typed",
                         "executables are not checked (checkExecutables=False); DoWhile placeholders are outside the family",
-                        "the invalid-configuration family is ExperimentInvalidConfigurationError and its subclasses"]
+                        "the invalid-configuration family is ExperimentInvalidConfigurationError (+ subclasses); for the in-memory entry "
+                        "point graphFromFlowIR an unwrapped errors.FlowIRException subclass is also taken as a typed refusal"]
     return chk.finish()
 
 
